@@ -421,3 +421,50 @@ def cfg_of(fi):
     if k not in _cache:
         _cache[k] = CFG(fi.node)
     return _cache[k]
+
+
+# ---------------------------------------------------------------------------
+# reading edge labels
+
+
+def membership(lab, key, cont):
+    """What an edge says about `key in cont`:  True (asserts membership), False (asserts absence), None."""
+    if not lab or lab[0] != "cond":
+        return None
+    e, pol = lab[1], lab[2]
+    if isinstance(e, ast.Compare) and len(e.ops) == 1 and " ".join(ast.unparse(e.left).split()) == key and " ".join(ast.unparse(e.comparators[0]).split()) == cont:
+        if isinstance(e.ops[0], ast.In):
+            return pol
+        if isinstance(e.ops[0], ast.NotIn):
+            return not pol
+    return None
+
+
+def equality(lab, a, b):
+    """What an edge says about `a == b` (either operand order):  True / False / None."""
+    if not lab or lab[0] != "cond":
+        return None
+    e, pol = lab[1], lab[2]
+    if isinstance(e, ast.Compare) and len(e.ops) == 1:
+        l, r = " ".join(ast.unparse(e.left).split()), " ".join(ast.unparse(e.comparators[0]).split())
+        if {l, r} == {a, b}:
+            if isinstance(e.ops[0], (ast.Eq, ast.Is)):
+                return pol
+            if isinstance(e.ops[0], (ast.NotEq, ast.IsNot)):
+                return not pol
+    return None
+
+
+def truth(lab, name):
+    """What an edge says about the truthiness / non-None-ness of `name`."""
+    if not lab or lab[0] != "cond":
+        return None
+    e, pol = lab[1], lab[2]
+    t = " ".join(ast.unparse(e).split())
+    if t == name:
+        return pol
+    if t in (f"{name} is not None", f"{name} != None"):
+        return pol
+    if t in (f"{name} is None", f"{name} == None"):
+        return not pol
+    return None
